@@ -130,7 +130,11 @@ def run(job, seed):
         lists = role_lists(names2, b['lists'])
         tvals = (names2 + [None])[job['lo']:job['hi']]
         for tv in tvals:
-            target = {} if tv is None else {'k': tv, 'other': 'zz'}
+            # other entries of the target - whatever they hold - are nobody's
+            # business
+            target = {} if tv is None else {'k': tv, 'other': 'zz',
+                                            'unset': None, 'n': 0,
+                                            'nested': {'k': 'zz'}}
             for rl in lists:
                 exp = rleaf.role_allows(form, target, _creds(rl))
                 acc.case(space, tv is not None and bool(rl))
